@@ -243,7 +243,8 @@ func newClientOnce(cl *Cluster, o MgrOpts) (*Client, error) {
 	}
 	if o.PerNodeMD {
 		mopts = append(mopts, gorums.WithPerNodeMetadata(func(id uint32) metadata.MD {
-			return metadata.Pairs("verif-node", fmt.Sprint(id), fmt.Sprintf("verif-only-%d", id), "x")
+			// "verif-shared" is a key the general metadata may carry as well: both values must arrive
+			return metadata.Pairs("verif-node", fmt.Sprint(id), fmt.Sprintf("verif-only-%d", id), "x", "verif-shared", fmt.Sprintf("node-%d", id))
 		}))
 	}
 	if o.NoConnect {
